@@ -64,8 +64,9 @@ pub fn eval_qs() -> Verdict {
     }
     let pts = [sym("z0"), sym("z1")];
     let mut qs = QuerySet::new();
-    // label "b" is shared by two polynomials at one point, label "d" carries two different points
-    for (pi, zi, lab) in [(0usize, 0usize, "a"), (0, 1, "b"), (1, 1, "b"), (1, 0, "c"), (0, 0, "d"), (1, 1, "d")] {
+    // label "a" carries two different points (and (p1, z1) is reachable only through it),
+    // label "b" is shared by two polynomials at one point
+    for (pi, zi, lab) in [(0usize, 0usize, "a"), (1, 1, "a"), (0, 1, "b"), (1, 0, "c"), (0, 0, "c")] {
         qs.insert((format!("p{}", pi), (lab.to_string(), pts[zi])));
     }
     let ev = evaluate_query_set(&lps, &qs);
